@@ -50,6 +50,8 @@ class World:
         self.counters = {}
         self.attach_count = 0
         self.attach_limit = 3000
+        self.draw_count = 0
+        self.draw_limit = 300  # target draws per world (a loop that keeps redrawing must not hang the run)
 
     # events ---------------------------------------------------------------
     def event(self, ev, live=None):
@@ -285,6 +287,10 @@ def install():
             w = _W
             if w is None:
                 return orig(self, rng, *a, **k)
+            if w.in_draw == 0:
+                w.draw_count += 1
+                if w.draw_count > w.draw_limit:
+                    raise BudgetExceeded(f"more than {w.draw_limit} target draws in one run")
             if w.forced_draws is not None and w.in_draw == 0:
                 if w.forced_pos < len(w.forced_draws):
                     v = w.forced_draws[w.forced_pos]
